@@ -77,7 +77,11 @@ def run_cell(ctx, rng, sc, orders, cutoff=None):
         orders = [k for k in orders if base.basis_set[k].basis_set.shape[1] > 0]
         if not orders:
             return
-        base = mk(atoms_of(sc), d, f).compute_basis_set(orders=orders)
+        try:
+            base = mk(atoms_of(sc), d, f).compute_basis_set(orders=orders)
+        except RuntimeError:      # the remaining orders are not a combination the facade accepts (e.g. [3] alone)
+            ctx.count("skipped-singular-or-unsupported")
+            return
     try:
         base.solve(orders=orders, is_compact_fc=False)
     except (np.linalg.LinAlgError, RuntimeError):
